@@ -31,6 +31,10 @@ THEOREMS = [
     "objectz_scan_order_is_repaired", "objectz_scan_no_panic", "objectz_scan_follows_code",
     # 1h histories of ast.Parse calls
     "parse_listener_is_per_call", "parse_history_independent", "parse_history_follows_code",
+    # 1i read APIs against never-created structural buckets
+    "bucket_sites_are_guarded", "scan_no_panic_missing_buckets", "scan_follows_code",
+    # 1j process-wide configuration (ast.EnableQueryDebug)
+    "debug_branch_reads_only_input", "parse_config_independent", "parse_config_follows_code",
 ]
 TABLE_OBLIGATIONS = [
     "class_table_is_expected (Generated/C10Classes.lean: interfaces implemented by every ast node class, from ast/*.go)",
@@ -40,6 +44,8 @@ TABLE_OBLIGATIONS = [
     "callbacks_are_expected (Generated/C10Sites.lean: the ToBoltListener callbacks that exist are the modelled ones)",
     "objectz_scan_follows_code (Generated/C10Sites.lean objScanNilTestFirst: the order of `cursor == nil` and the first use of the iterator in objectz memSortingScanner.Scan selects the model variant; objectz_scan_order_is_repaired: the order is the repaired one of bbcb51c, for which the full no-panic statement is proved; the other order is refuted)",
     "parse_listener_is_per_call (Generated/C10Sites.lean astParseListenerPerCall: in ast.Parse the listener handed to zitiql.Parse is a local variable defined once by `:= NewListener()`, and NewListener returns a literal with fresh `&Stack{}` operand stacks and no error; selects the listener policy of C10/Session.lean parseHistory, for which parse_history_independent is the full statement)",
+    "bucket_sites_are_guarded (Generated/C10Buckets.lean, extract/c10_buckets.go: functions of boltz that can return a nil *TypedBucket, *TypedBucket methods that test their receiver, and every other member selected on a possibly-nil bucket in the read path - query_scanners.go, store_query.go, query_cursor.go as a whole, the read functions of store_crud.go / indexes.go / link_collection.go / typed_bucket.go by name - with: guarded by a nil test; selects the Guards of C10/BoltScan.lean, for which scan_no_panic_missing_buckets is the full statement)",
+    "debug_branch_reads_only_input (Generated/C10Buckets.lean astParseDebugReadsOnlyInput: in ast.Parse every statement under `if EnableQueryDebug.Load()` mentions only parameters of Parse, no local; selects the variant of C10/Config.lean parseModelCfg for which parse_config_independent is the full statement)",
     "lexer_table_is_good (Generated/C10Lexer.lean: zitiql/ZitiQl.g4 re-read on every run; its lexer rules compile - references resolve, no recursion, every token known - into the rule table the reference lexer INTERPRETS, and the table satisfies GoodTable: one rule per token type in ANTLR's numbering, no rule matches the empty string, outside STRING only recognised characters)",
     "lexer_atn_matches_grammar (Generated/C10Atn.lean: the serializedATN literal of zitiql_lexer.go decoded; rule names incl. fragments in file order, token numbering, literal/symbolic names and - rule by rule - the multiset of transition labels equal what the Lean side computes from the grammar file's lexer rules)",
     "parser_atn_matches_grammar (Generated/C10Atn.lean: the same for zitiql_parser.go: rule names, boolExpr the only precedence rule with predicates 6/5 and the not-operand at precedence 1, per rule the token / rule-call labels of the grammar file's parser rules)",
@@ -105,6 +111,15 @@ def text_of(case):
             return _unhex(f[1]).decode("utf-8", "replace")
         if f[0] in ("Q", "B", "O"):
             return _unhex(f[-1]).decode("utf-8", "replace")
+        if f[0] == "N":
+            t = _unhex(f[7]).decode("utf-8", "replace")
+            if f[4] != "-":
+                t += " sort by " + ", ".join(x.split(":")[0] + (" desc" if x.endswith(":d") else "") for x in f[4].split(","))
+            if f[5] != "-":
+                t += " skip " + f[5]
+            if f[6] != "-":
+                t += " limit " + f[6]
+            return "[database state `%s`, store `%s`] `%s`" % (f[1], f[2], t.strip())
         if f[0] == "H":
             return " ; then: ".join(("[table %s] " % w.split("~")[0] if "~" in w else "") + "`" +
                                     _unhex(w.split("~")[-1]).decode("utf-8", "replace") + "`" for w in f[2:])
@@ -162,9 +177,48 @@ def compare(case, impl, model, spec, estage):
         for k in ("res", "typed", "eval"):
             if A.get(k) != M.get(k):
                 corr.append(f"{k}: impl {A.get(k)} model {M.get(k)}")
+        if A.get("cfg") == "P":
+            prop.append("ast.Parse panics when the process-wide debug configuration is on (ast.EnableQueryDebug = true, debug log level); "
+                        f"with the default configuration it returns res={A.get('res')}")
+        elif A.get("cfg") != A.get("res"):
+            prop.append(f"the verdict of ast.Parse depends on process-wide configuration: res={A.get('res')} by default, {A.get('cfg')} with ast.EnableQueryDebug")
+        if A.get("cfg") != M.get("cfg"):
+            corr.append(f"cfg: impl {A.get('cfg')} model {M.get('cfg')}")
     if kind == "B":
         if not impl.startswith("bolt="):
             prop.append("bolt store: " + impl)
+        elif A.get("cfg") != "same":
+            prop.append("Store.QueryIds answers differently with ast.EnableQueryDebug on: " + impl)
+    if kind == "N":
+        if not impl.startswith("fresh="):
+            prop.append("read APIs on a database with never-created buckets: " + impl)
+        else:
+            ia = dict(x.split(":", 1) for x in impl[6:].split(","))
+            ma = dict(x.split(":", 1) for x in model[6:].split(",")) if model.startswith("fresh=") else {}
+            must = dict(x.split(":", 1) for x in spec[5:].split(",")) if spec.startswith("must=") else {}
+            names = {"p": "ast.Parse", "qi": "QueryIds", "qc": "QueryIdsC", "qw": "QueryWithCursorC", "qn": "QueryWithCursorC (provider yields nil)",
+                     "it": "IterateIds", "iv": "IterateValidIds", "fb": "FindById", "rl": "GetRelatedEntitiesIdList", "rc": "GetRelatedEntitiesCursor",
+                     "ux": "unique ReadIndex.Read", "sx": "set ReadIndex.Read", "dq": "QueryIds with ast.EnableQueryDebug"}
+            for k, v in ia.items():
+                if v == "P":
+                    prop.append(f"{names.get(k, k)} panics")
+            must = dict(must, qi=must.get("qc"), dq=must.get("qc"))
+            for k, v in ia.items():
+                if must.get(k) == "1" and v.startswith("R"):
+                    prop.append(f"{names.get(k, k)} returns rows ({v}) from buckets that were never created")
+            if ia.get("dq") != ia.get("qi") and "P" not in (ia.get("dq"), ia.get("qi")):
+                prop.append(f"QueryIds answers {ia.get('qi')} by default and {ia.get('dq')} with ast.EnableQueryDebug")
+            ma = dict(ma, qi=ma.get("qc"))
+            for k, mv in ma.items():
+                iv = ia.get(k, "?")
+                if ia.get("p") != "ok" and k in ("qi", "qc", "qw", "qn", "it", "iv"):
+                    ok = iv in ("X", "-")
+                elif mv == "S":
+                    ok = iv == "E" or iv.startswith("R")
+                else:
+                    ok = iv == mv
+                if not ok and iv != "P":
+                    corr.append(f"{names.get(k, k)}: impl {iv} model {mv}")
     if kind == "O":
         if not impl.startswith("obj="):
             prop.append("object store: " + impl)
@@ -230,7 +284,7 @@ RULE = ("streams: grammar-derived sentences with type-undirected operands; 1-2 t
         "fields, full, mixed, nil iterator), plus sort clauses over every symbol kind, 1-8 fields, duplicates, and every skip x limit out "
         "of 16 extreme values, judged for panics; histories of 1-6 ast.Parse calls in one process (every ordered pair out of 78 fixed texts - non-sentences, "
         "listener errors, typing errors, sentences, predicate-less sentences, the empty filter - and random sequences of generated sentences, "
-        "their mutations and predicate-less tails), every call compared with the same text parsed alone; every ASCII and 24 non-ASCII code points in 28 lexical contexts; tree-set cursor scripts. distinct = distinct case lines; non-trivial = the input is not "
+        "their mutations and predicate-less tails), every call compared with the same text parsed alone; read APIs (QueryIds / QueryIdsC / QueryWithCursorC / IterateIds / IterateValidIds / FindById / GetRelatedEntitiesIdList / GetRelatedEntitiesCursor / ReadIndex.Read) of a root, a linked and a child store against fresh database files in which nothing / only another store / only a sibling under the same base path / only the parent / only the linked store / everything was ever written, x every filter family x 13 sort clauses x 8 skip/limit pairs; every Q and B case and every N query also under ast.EnableQueryDebug + debug log level; every ASCII and 24 non-ASCII code points in 28 lexical contexts; tree-set cursor scripts. distinct = distinct case lines; non-trivial = the input is not "
         "trivially rejected at its first token (at least two tokens lexed) or is accepted")
 
 
@@ -247,6 +301,8 @@ def nontrivial(case, impl):
         return case if impl.startswith("obj=ok") or impl.startswith("panic") else None
     if k == "H":
         return case if "ok:" in impl or impl.startswith("panic") else None
+    if k == "N":
+        return case if "p:ok" in impl or ":P" in impl else None
     return case
 
 
@@ -265,6 +321,8 @@ def histogram(lines, impl):
             key = "O:" + ("panic" if a.startswith("panic") else ("evaluated" if a.startswith("obj=ok") else "rejected"))
         elif k == "H":
             key = "H:%d-calls" % (len(c.split(" ")) - 2)
+        elif k == "N":
+            key = "N:" + c.split(" ")[1] + ("" if "p:ok" in a else ":rejected")
         else:
             key = k
         h[key] = h.get(key, 0) + 1
@@ -280,6 +338,7 @@ def run(ctx, replay_cases=None):
         "ast.Symbols implementations return non-nil cursors from OpenSetCursor / OpenSetCursorForQuery (boltz/query_cursor.go does)",
         "float64 literals and fields are modelled by their exact decimal value; the generator keeps evaluated numbers to <= 15 significant digits and |n| < 2^53 where this is exact",
         "termination of the implementation is observed with a per-case timeout, not proved",
+        "scan_no_panic_missing_buckets: the nil-ness analysis of extract/c10_buckets.go is syntactic (a site counts as guarded when the function compares the identifier with nil anywhere); the N cases exercise every modelled API on real database files in every bucket state",
     ]
     with common.Lock():
         common.build_tools(ctx)
